@@ -161,13 +161,15 @@ def run(ctx):
                 "application data relation holds.")
     ctx.assumptions = []
     import session_corr
-    ctx.prove(["TLX.Props.C13", "TLX.Props.C13Session", "TLX.Props.C02Out", "TLX.Props.C01Pipeline"])
-    ctx.require_theorems(THEOREMS + session_corr.THEOREMS_C13 + ["TLX.Props.C02Out." + t for t in ("meta_only_adds_quic", "meta_only_adds_quic_sublist", "meta_regroup", "out_bytes_from_frames")] + ["TLX.Props.C01Pipeline.connOut_meta_only_adds",
+    import export_props_thms, file_corr     # whole-program form (Props/ExportProps) about TLX.Export.framesFrom, tied file to file
+    ctx.prove(["TLX.Props.C13", "TLX.Props.C13Session", "TLX.Props.C02Out", "TLX.Props.C01Pipeline"] + export_props_thms.MODULES)
+    ctx.require_theorems(THEOREMS + session_corr.THEOREMS_C13 + export_props_thms.THEOREMS_C13 + ["TLX.Props.C02Out." + t for t in ("meta_only_adds_quic", "meta_only_adds_quic_sublist", "meta_regroup", "out_bytes_from_frames")] + ["TLX.Props.C01Pipeline.connOut_meta_only_adds",
                           "TLX.Props.C01Pipeline.handshake13_exports_nothing"])
     import c06_model
     c06_model.run_model(ctx)          # ties TLX.TcpOut to the real OutputBuilder
     import q1_udpout
     q1_udpout.correspond(ctx)         # ties TLX.Quic.UdpOut to the real QUICOutputbuilder
+    file_corr.correspond(ctx, ctx.n(12, 200))     # ties the whole-program model (ExportProps' subject) file to file
     session_corr.correspond(ctx)      # ties TLX.Session to the real Session (exp_meta on and off)
     explore(ctx)
     return ctx.finish(search=lambda c: explore(c, scale=2))
